@@ -1,0 +1,10 @@
+// Copyright (C) 2026 Storj Labs, Inc.
+// See LICENSE for copying information.
+
+//go:build !verif
+
+package drpcdebug
+
+// Point marks a named program point for external checkers. Without the verif
+// build tag it does nothing and is inlined away.
+func Point(name string) {}
